@@ -15,6 +15,9 @@ NC_STD = {2021: [10750, 21500, 10750, 16125, 21500], 2022: [12750, 25500, 12750,
 NC_SS_TOTAL_ADDITIONS = {2021: "15", 2022: "16", 2023: "16"}     # "Total Additions - Add Lines 1 through 14 / 15 (Enter the total here and on Form D-400, Line 7)"
 NC_SS_TOTAL_DEDUCTIONS = {2021: "38", 2022: "41", 2023: "41"}    # "Total Deductions - Add Lines 16 through 21, 22f, 23f, and 24 through 37" (2021) / "... 17 through 22, 23f, 24f, and 25 through 40"
 ACTC = {2022: 1500, 2023: 1600}
+AMED = [200000, 250000, 125000, 200000, 200000]                      # Form 8959 lines 5, 9, 15: "Enter the following amount for your filing status"
+HSA_SELF = {2021: 3600, 2022: 3650, 2023: 3850}                     # Form 8889 line 3 (Rev. Proc. 2020-32, 2021-25, 2022-24)
+HSA_FAMILY = {2021: 7200, 2022: 7300, 2023: 7750}
 
 
 def E(form, line, op, args=(), cite="", **kw):
@@ -104,6 +107,62 @@ def equations(year):
             E("1040_s8812", "clwkst_a_5", "sub", ["clwkst_a_4", "clwkst_a_3"], cite="Credit Limit Worksheet A 5. Subtract line 4 from line 3"),
             E("1040", "28", "carry", src="1040_s8812.27", cite="28. Additional child tax credit from Schedule 8812"),
         ]
+    def same_in(form, line, inp, cite, **kw):
+        return E(form, line, "same", ["in:" + inp], cite=cite, tol=1, **kw)     # an answer typed with more than two decimals: either neighbouring cent
+    c86 = "Form 8606 (%d) " % year
+    out += [
+        # Form 8606 (Nondeductible IRAs): the lines the template's text does not turn into arithmetic
+        same_in("8606", "1", "nondeductible_contributions", c86 + "1. Enter your nondeductible contributions to traditional IRAs for the year"),
+        same_in("8606", "2", "traditional_basis", c86 + "2. Enter your total basis in traditional IRAs"),
+        same_in("8606", "4", "nondeductible_contributions_next_year", c86 + "4. Enter those contributions included on line 1 that were made from January 1 through the due date of the following year"),
+        same_in("8606", "6", "year_end_value_non_roth", c86 + "6. Enter the value of all your traditional, SEP, and SIMPLE IRAs as of December 31 plus any outstanding rollovers"),
+        same_in("8606", "7", "distributions_%d" % year, c86 + "7. Enter your distributions from traditional, SEP, and SIMPLE IRAs in the year"),
+        same_in("8606", "8", "net_converted", c86 + "8. Enter the net amount you converted from traditional, SEP, and SIMPLE IRAs to Roth IRAs"),
+        E("8606", "10", "ratio", ["5", "9"], cite=c86 + "10. Divide line 5 by line 9. Enter the result as a decimal rounded to at least 3 places. If the result is 1.000 or more, enter 1.000"),
+        E("8606", "14", "sub", ["13", "3"], cond="in:distribution_or_roth_conversion", condis=1, exact_sub=True, cite=c86 + "14. Subtract line 13 from line 3. This is your total basis in traditional IRAs"),
+        E("8606", "14", "same", ["3"], cond="in:distribution_or_roth_conversion", condis=0,
+          cite=c86 + "line 5 note: if you did not take a distribution or make a conversion, do not complete the rest of Part I: enter the amount from line 3 on line 14"),
+        E("8606", "16", "same", ["8"], cond="in:part_1_needed", condis=1, cite=c86 + "16. If you completed Part I, enter the amount from line 8"),
+        same_in("8606", "16", "net_converted", c86 + "16. ... Otherwise, enter the net amount you converted from traditional, SEP, and SIMPLE IRAs to Roth IRAs"),
+        E("8606", "17", "same", ["11"], cond="in:part_1_needed", condis=1, cite=c86 + "17. If you completed Part I, enter the amount from line 11"),
+        same_in("8606", "17", "converted_cost_basis", c86 + "17. ... Otherwise, enter your basis in the amount on line 16", cond="in:part_1_needed", condis=0),
+        same_in("8606", "19", "total_nonqualified_distributions", c86 + "19. Enter your total nonqualified distributions from Roth IRAs"),
+        same_in("8606", "20", "qualified_homebuyer", c86 + "20. Qualified first-time homebuyer expenses"),
+        same_in("8606", "22", "roth_ira_contributions_basis", c86 + "22. Enter your basis in Roth IRA contributions"),
+        E("8606", "taxable_amount", "t8606", cite="Form 1040 instructions, line 4b with Form 8606: the taxable amounts of Form 8606 line 15c (Part I), line 18 (Part II) and line 25c (Part III)"),
+        # Form 8959 (Additional Medicare Tax)
+        E("8959", "5", "const", consts=AMED, cite="Form 8959 line 5: married filing jointly $250,000, married filing separately $125,000, single, head of household or qualifying surviving spouse $200,000"),
+        E("8959", "9", "const", consts=AMED, cite="Form 8959 line 9: same amounts as line 5"),
+        E("8959", "15", "const", consts=AMED, cite="Form 8959 line 15: same amounts as line 5"),
+        E("8959", "2", "zero", cite="Form 8959 line 2: unreported tips from Form 4137 line 6 (Form 4137 is not supported: nothing to enter)"),
+        E("8959", "3", "zero", cite="Form 8959 line 3: wages from Form 8919 line 6 (not supported: nothing to enter)"),
+        E("8959", "8", "zero", cite="Form 8959 line 8: self-employment income from Schedule SE (not supported: nothing to enter)"),
+        E("8959", "14", "zero", cite="Form 8959 line 14: railroad retirement (RRTA) compensation (not supported: nothing to enter)"),
+        E("8959", "23", "zero", cite="Form 8959 line 23: Additional Medicare Tax withholding on RRTA compensation (not supported: nothing to enter)"),
+        # Form 8889 (Health Savings Accounts)
+        same_in("8889", "2", "hsa_contributions", "Form 8889 line 2: HSA contributions you made for the year (not employer contributions)"),
+        E("8889", "3", "const", consts=[HSA_FAMILY[year]] * 5, cond="1", condis=1, cite="Form 8889 line 3: under age 55 with family coverage all year: $%d" % HSA_FAMILY[year]),
+        E("8889", "3", "const", consts=[HSA_SELF[year]] * 5, cond="1", condis=0, cite="Form 8889 line 3: under age 55 with self-only coverage all year: $%d" % HSA_SELF[year]),
+        E("8889", "4", "zero", cite="Form 8889 line 4: Archer MSA contributions (Form 8853 is not supported: nothing to enter)"),
+        E("8889", "7", "zero", cite="Form 8889 line 7: additional contribution amount for age 55 or older (not supported: nothing to enter)"),
+        same_in("8889", "9", "employer_contribution", "Form 8889 line 9: employer contributions made to your HSAs (Form W-2 box 12 code W)"),
+        E("8889", "10", "zero", cite="Form 8889 line 10: qualified HSA funding distributions (not supported: nothing to enter)"),
+        E("8889", "hsa_deduction", "same", ["13"], cite="Form 8889 line 13: HSA deduction, enter here and on Schedule 1"),
+        # Schedule A: the amounts the filer is told to enter, and the withheld state and local income taxes
+        same_in("1040_sa", "1", "medical_dental_expenses", "Schedule A line 1: medical and dental expenses"),
+        E("1040_sa", "5a", "addinst", terms=[("w-2", "box_17"), ("w-2", "box_19"), ("1099-g", "box_11_1"), ("1099-g", "box_11_2"), ("1099-div", "box_16_1"), ("1099-div", "box_16_2"),
+                                             ("1099-int", "box_17_1"), ("1099-int", "box_17_2"), ("1099-r", "box_14_1"), ("1099-r", "box_14_2"), ("1099-r", "box_17_1"), ("1099-r", "box_17_2")],
+          cite="Schedule A instructions, line 5a: state and local income taxes withheld from your salary (Form W-2 boxes 17 and 19); Forms W-2G, 1099-G, 1099-R, 1099-MISC and 1099-NEC "
+               "may also show state and local income taxes withheld (the state and local tax withheld boxes of every Form W-2 and 1099 copy)"),
+        same_in("1040_sa", "5b", "state_local_real_estate_taxes", "Schedule A line 5b: state and local real estate taxes"),
+        same_in("1040_sa", "5c", "state_local_personal_property_taxes", "Schedule A line 5c: state and local personal property taxes"),
+        same_in("1040_sa", "6", "other_taxes_amount", "Schedule A line 6: other taxes, list type and amount"),
+        same_in("1040_sa", "11", "charitable_cash_check", "Schedule A line 11: gifts by cash or check"),
+        same_in("1040_sa", "12", "charitable_other_than_cash_check", "Schedule A line 12: gifts other than by cash or check"),
+        same_in("1040_sa", "13", "charitable_carryover", "Schedule A line 13: carryover from prior year"),
+        E("1040_sa", "9", "zero", cite="Schedule A line 9: investment interest (Form 4952 is not supported: nothing to enter)"),
+        E("1040_sa", "15", "zero", cite="Schedule A line 15: casualty and theft losses (Form 4684 is not supported: nothing to enter)"),
+    ]
     n, d = NC_RATE[year]
     nc = "NC Form D-400 (%d), text of the bundled PDF" % year
     out += [
